@@ -365,13 +365,15 @@ def ledger(lb, name):
 class Lab:
     """Holds one constructed framework + scripted strategies for a scenario."""
 
-    def __init__(self, scenario, snapshots=True, snapshot_cbs=None, stepped=False):
+    def __init__(self, scenario, snapshots=True, snapshot_cbs=None, stepped=False, capture_books=False):
         from flumine import FlumineSimulation, clients
         from flumine.order.orderpackage import OrderPackageType  # noqa
 
         self.scenario = scenario
         self.snapshots = snapshots
         self.snapshot_cbs = snapshot_cbs  # None = all
+        self.capture_books = capture_books
+        self.datetime_restored = None
         self.log = []  # callback records
         self.op_log = []
         self.packages = []  # (now, package_type name, [order ids], market_version)
@@ -472,6 +474,15 @@ class Lab:
         }
         if self.snapshots:
             rec["orders"] = [snap_order(o) for o in market.blotter]
+        if self.capture_books and cb in ("check_market_book", "process_closed_market"):
+            rec["book"] = [
+                (r.selection_id, r.status, [(x["price"], x["size"]) for x in r.ex.available_to_back],
+                 [(x["price"], x["size"]) for x in r.ex.available_to_lay],
+                 sorted((x["price"], x["size"]) for x in r.ex.traded_volume))
+                for r in market_book.runners
+            ]
+            rec["inplay"] = market_book.inplay
+            rec["version"] = market_book.version
         self.log.append(rec)
 
     # -- whole run ---------------------------------------------------------------------------
@@ -480,6 +491,7 @@ class Lab:
             self.fw.run()
         except BaseException as e:  # recorded; the caller decides what it means
             self.error = e
+        self.datetime_restored = _dt.datetime is _REAL_DATETIME
         return self
 
     def cleanup(self):
